@@ -169,6 +169,7 @@ fn main() {
         progs.push((inst.instantiate(&ap), mode));
     }
     let mut id = 0;
+    progs.extend(pgen::directed_programs().into_iter().map(|(p, m, _)| (p, m)));
     for (k, (p, mode)) in progs.iter().enumerate() {
         let pts = pgen::input_points(&mut rng, *mode, p.nvars, 3);
         // budgets small enough to force memory traffic, and the default
